@@ -47,7 +47,8 @@ func c16Sets() []*sgen.Schema {
 			{Kind: sgen.KObject, Name: "Query", Fields: []*sgen.Field{f("f", N("Int"), &sgen.Arg{Name: "in", Type: N("Filter")}, &sgen.Arg{Name: "c", Type: N("Color"), HasDef: true, Default: world.EnumLit("RED")})}},
 			{Kind: sgen.KInput, Name: "Filter", Fields: []*sgen.Field{{Name: "c", Type: N("Color"), HasDef: true, Default: world.EnumLit("GREEN")}, {Name: "sub", Type: N("Filter")}}},
 			{Kind: sgen.KEnum, Name: "Color", Values: []*sgen.EnumVal{{Name: "RED"}, {Name: "GREEN", Dirs: []sgen.DirUse{{Name: "tag", Args: []sgen.KV{{Name: "n", Value: 9}}}}}}},
-			{Kind: sgen.KDirective, Name: "tag", Locations: []string{"OBJECT", "FIELD_DEFINITION", "ENUM_VALUE"},
+			{Kind: sgen.KUnion, Name: "TU", Members: []string{"T"}, Dirs: []sgen.DirUse{{Name: "tag", Args: []sgen.KV{{Name: "n", Value: 4}}}}},
+			{Kind: sgen.KDirective, Name: "tag", Locations: []string{"OBJECT", "FIELD_DEFINITION", "ENUM_VALUE", "UNION"},
 				Args: []*sgen.Arg{{Name: "names", Type: L(N("String")), HasDef: true, Default: []interface{}{"x"}}, {Name: "n", Type: N("Int"), HasDef: true, Default: 3}}},
 			{Kind: sgen.KObject, Name: "T", Dirs: []sgen.DirUse{{Name: "tag"}}, Fields: []*sgen.Field{{Name: "x", Type: N("Int"), Dirs: []sgen.DirUse{{Name: "tag", Args: []sgen.KV{{Name: "n", Value: 1}}}}},
 				// an explicit null is a value: the argument's default must not replace it, wherever the directive definition arrives
